@@ -36,7 +36,30 @@ def concat_rs(paths):
     return "".join(out)
 
 
-def weave(repo, out):
+LOCK = os.path.join(VERIF, "specs", "contracts.lock.json")
+
+
+class RecipeError(Exception):
+    def __init__(self, recipe, reason):
+        Exception.__init__(self, reason)
+        self.recipe, self.reason = recipe, reason
+
+
+def weave(repo, out, write_lock=False):
+    """weave; when the anchors of a contract recipe are gone on this tree, retry with that recipe degraded to
+    trusted contracts (W11) - as long as the committed lock file knows the recipe's contracts"""
+    degraded = {}
+    lock = json.load(open(LOCK)) if os.path.exists(LOCK) else {}
+    while True:
+        try:
+            return weave_once(repo, out, degraded, lock, write_lock)
+        except RecipeError as e:
+            if e.recipe in degraded or e.recipe not in lock or e.recipe.startswith("a00") or os.environ.get("VERIF_NO_DEGRADE") == "1":
+                raise WeaveError(e.reason)
+            degraded[e.recipe] = e.reason
+
+
+def weave_once(repo, out, degraded, lock, write_lock):
     src = os.path.join(repo, "src")
     sm = subprocess.run([SPANMAP, src], capture_output=True, text=True)
     if sm.returncode != 0:
@@ -49,7 +72,26 @@ def weave(repo, out):
     for fw in W.files.values():
         rules.drop_test_mods(fw)
     for m in load_contracts():
-        m.apply(ctx, W)
+        name = m.__name__.replace("contracts_", "")
+        ctx.current_recipe = name
+        if name in degraded:
+            try:
+                rules.apply_fallback(ctx, W, name, lock[name], degraded[name])
+            except (WeaveError, IndexError, KeyError, TypeError, AttributeError) as e:
+                raise WeaveError("%s; and the trusted-contract fallback of recipe %s failed too: %s" % (degraded[name], name, e))
+            continue
+        try:
+            m.apply(ctx, W)
+        except WeaveError as e:
+            raise RecipeError(name, str(e))
+        except (IndexError, KeyError, TypeError, AttributeError) as e:
+            raise RecipeError(name, "recipe %s: anchor lookup failed (%s: %s)" % (name, type(e).__name__, e))
+    if write_lock:
+        by = {}
+        for sp in ctx.specs:
+            by.setdefault(sp["recipe"], []).append(sp)
+        with open(LOCK, "w") as f:
+            json.dump(by, f, indent=1, sort_keys=True)
     # W1: crate plumbing
     lib = W.file("lib.rs")
     first = min(n["span"][0] for n in lib.nodes if n["parent"] == -1)
@@ -67,7 +109,7 @@ def weave(repo, out):
         shutil.rmtree(out)
     os.makedirs(os.path.join(out, "src"))
     segmaps = W.write(os.path.join(out, "src"))
-    meta = {"units": ctx.units, "clauses": ctx.clauses, "types": ctx.types, "segmaps": segmaps, "edits": W.edit_log(),
+    meta = {"units": ctx.units, "clauses": ctx.clauses, "types": ctx.types, "segmaps": segmaps, "edits": W.edit_log(), "lost": ctx.lost,
             "files": {rel: {"len": len(fw.src)} for rel, fw in W.files.items()}}
     with open(os.path.join(out, "meta.json"), "w") as f:
         json.dump(meta, f)
@@ -78,12 +120,15 @@ def main():
     ap = argparse.ArgumentParser()
     ap.add_argument("--repo", default="/repo")
     ap.add_argument("--out", default=os.path.join(VERIF, "work", "woven"))
+    ap.add_argument("--write-lock", action="store_true", help="record every unit's contract as data in specs/contracts.lock.json (run on the good tree)")
     a = ap.parse_args()
     try:
-        meta = weave(a.repo, a.out)
+        meta = weave(a.repo, a.out, write_lock=a.write_lock)
     except WeaveError as e:
         print("WEAVE-UNDECIDED: %s" % e)
         sys.exit(2)
+    for r, l in meta.get("lost", {}).items():
+        print("DEGRADED recipe=%s reason=%s units=%d tags=%s" % (r, l["reason"], len(l["units"]), ",".join(l["tags"])))
     print("woven: %d units, %d clauses, %d edits" % (len(meta["units"]), len(meta["clauses"]), len(meta["edits"])))
 
 
